@@ -54,7 +54,7 @@ func main() {
 	case "sign":
 		stats = famSign(tr, *scratch, *seed, *tier, *repo)
 	case "iso":
-		stats = famIso(tr, *scratch, *seed, *tier, *workers)
+		stats = famIso(tr, *scratch, *seed, *tier, *workers, *behaviours)
 	case "conc":
 		stats = famConc(tr, *scratch, *seed, *tier)
 	case "repro":
